@@ -91,4 +91,189 @@ theorem decParamFilter_node (p : ParamFilter) (h : Paramok p) : decParamFilter (
       unfold encTextMatch; rw [pick_el]; simp
     simp [pick_append, pick_ind, pick_optTM, optTM, indNodes, hl, hl2, ht, attr, att, pure, Except.pure, Except.map]
 
+theorem pick_paramNodes (loc : String) (ps : List ParamFilter) :
+    pick loc (ps.map paramNode) = if "param-filter" = loc then ps.map paramNode else [] := by
+  have h : paramNode = fun p => el "param-filter" [att "name" p.name] (indNodes p.isNotDefined ++ optTM p.textMatch) := by
+    funext p; rfl
+  rw [h]; exact pick_map_el loc "param-filter" ps _ _
+
+-- prop-filter --------------------------------------------------------------------------------------------------------------
+
+def propNode (p : PropFilter) : Node :=
+  el "prop-filter" ([att "name" p.name] ++ atOpt "test" p.test)
+    (indNodes p.isNotDefined ++ p.textMatches.map encTextMatch ++ p.params.map paramNode)
+
+theorem encPropFilter_ok (p : PropFilter) (h : PFok p) : encPropFilter p = .ok (propNode p) := by
+  obtain ⟨_, hind, _, hpar⟩ := h
+  have hm : p.params.mapM encParamFilter = .ok (p.params.map paramNode) :=
+    mapM_ok _ _ _ (fun x hx => encParamFilter_ok x (hpar x hx))
+  have hc : ¬ (p.isNotDefined = true ∧ ((!p.textMatches.isEmpty) = true ∨ (!p.params.isEmpty) = true)) := by
+    intro ⟨h1, h2⟩
+    obtain ⟨ht, hp⟩ := hind h1
+    rcases h2 with h2 | h2 <;> simp [ht, hp] at h2
+  unfold encPropFilter propNode
+  simp only [hc, if_false, hm]
+
+theorem decEnum_test (name t : String) (h : validTest t = true) :
+    decEnum carddavFilterTests ([att "name" name] ++ atOpt "test" t) "test" = .ok t := by
+  unfold validTest at h
+  unfold decEnum atOpt
+  by_cases ht : t = ""
+  · subst ht; simp [attr, att]
+  · have hv : carddavFilterTests.contains t = true := by simpa [ht] using h
+    have hat : attr ([att "name" name] ++ [att "test" t]) "test" = some t := by
+      simp [attr, att, List.find?_cons]
+    simp only [ht, if_false, hat, hv, if_true]
+
+theorem decEnum_filterTest (t : String) (h : validTest t = true) :
+    decEnum carddavFilterTests (atOpt "test" t) "test" = .ok t := by
+  unfold validTest at h
+  unfold decEnum atOpt
+  by_cases ht : t = ""
+  · subst ht; simp [attr]
+  · have hv : carddavFilterTests.contains t = true := by simpa [ht] using h
+    have hm : t ∈ carddavFilterTests := by simpa using hv
+    simp [ht, attr, att, hm]
+
+theorem decPropFilter_node (p : PropFilter) (h : PFok p) : decPropFilter (propNode p) = .ok p := by
+  obtain ⟨name, test, i, tms, params⟩ := p
+  obtain ⟨htest, hind, htm, hpar⟩ := h
+  simp only at htest hind htm hpar
+  unfold propNode decPropFilter
+  simp only [el, checkNs, Node.space?, if_true, bind, Except.bind]
+  rw [decEnum_test name test htest]
+  simp only []
+  generalize hcs : indNodes i ++ tms.map encTextMatch ++ params.map paramNode = cs
+  have hpick : ∀ loc, cs.filter (·.localIs loc) = pick loc cs := fun _ => rfl
+  rw [any_eq_pick, hpick, hpick]
+  have h1 : pick "text-match" cs = tms.map encTextMatch := by
+    simp [← hcs, pick_append, pick_ind, pick_textMatches, pick_paramNodes]
+  have h2 : pick "param-filter" cs = params.map paramNode := by
+    simp [← hcs, pick_append, pick_ind, pick_textMatches, pick_paramNodes]
+  have h3 : pick "is-not-defined" cs = indNodes i := by
+    simp [← hcs, pick_append, pick_ind, pick_textMatches, pick_paramNodes]
+  rw [h1, h2, h3]
+  rw [mapM_map_ok encTextMatch decTextMatch tms (fun t ht => textMatch_roundtrip t (htm t ht))]
+  simp only []
+  rw [mapM_map_ok paramNode decParamFilter params (fun x hx => decParamFilter_node x (hpar x hx))]
+  simp only []
+  cases i
+  · simp [indNodes, attr, att, pure, Except.pure]
+  · obtain ⟨ht, hp⟩ := hind rfl
+    subst ht hp
+    simp [indNodes, attr, att, pure, Except.pure]
+
+theorem pick_propNodes (loc : String) (ps : List PropFilter) :
+    pick loc (ps.map propNode) = if "prop-filter" = loc then ps.map propNode else [] := by
+  have h : propNode = fun p => el "prop-filter" ([att "name" p.name] ++ atOpt "test" p.test)
+      (indNodes p.isNotDefined ++ p.textMatches.map encTextMatch ++ p.params.map paramNode) := by
+    funext p; rfl
+  rw [h]; exact pick_map_el loc "prop-filter" ps _ _
+
+-- the query -----------------------------------------------------------------------------------------------------------------
+
+def queryNode (q : Query) : Node :=
+  el "addressbook-query" []
+    ([encPropReq q.allProp q.props, el "filter" (atOpt "test" q.filterTest) (q.propFilters.map propNode)] ++ encLimit q.limit)
+
+theorem encodeQuery_ok (q : Query) (h : Expressible q) : encodeQuery q = .ok (queryNode q) := by
+  have hm : q.propFilters.mapM encPropFilter = .ok (q.propFilters.map propNode) :=
+    mapM_ok _ _ _ (fun x hx => encPropFilter_ok x (h.2 x hx))
+  unfold encodeQuery queryNode
+  simp only [hm]
+
+/-- `decLimit` looks at the limit children only -/
+theorem decLimit_pick (cs : List Node) : decLimit cs = decLimit (pick "limit" cs) := by
+  unfold decLimit pick
+  rw [List.filter_filter]
+  simp
+
+def dataChildren (allProp : Bool) (props : List String) : List Node :=
+  if allProp then [el "allprop" [] []] else props.map (fun n => el "prop" [att "name" n] [])
+
+theorem props_ns (props : List String) :
+    (props.map (fun n => el "prop" [att "name" n] [])).any (fun p => decide (p.space? ≠ some nsCard)) = false := by
+  induction props with
+  | nil => rfl
+  | cons x xs ih => rw [List.map_cons, List.any_cons, ih]; simp [el, Node.space?]
+
+theorem props_names (props : List String) : (props.map (fun n => el "prop" [att "name" n] [])).map propNameOf = props := by
+  induction props with
+  | nil => rfl
+  | cons x xs ih => rw [List.map_cons, List.map_cons, ih]; simp [el, propNameOf, attr, att]
+
+theorem decDataChildren_enc (allProp : Bool) (props : List String) :
+    decDataChildren (dataChildren allProp props) = .ok (allProp, if allProp then [] else props) := by
+  unfold decDataChildren dataChildren
+  cases allProp
+  · simp only [Bool.false_eq_true, if_false]
+    have hp : ∀ loc, (props.map (fun n => el "prop" [att "name" n] [])).filter (·.localIs loc) =
+        pick loc (props.map (fun n => el "prop" [att "name" n] [])) := fun _ => rfl
+    rw [any_eq_pick, hp, pick_map_el, pick_map_el]
+    simp only [show ¬ ("prop" = "allprop") by decide, if_false, if_true, List.isEmpty_nil, Bool.not_true]
+    rw [props_ns, props_names]
+    simp
+  · simp +decide [el, Node.localIs, Node.space?]
+
+theorem decDataReq_enc (allProp : Bool) (props : List String) :
+    decDataReq [el "address-data" [] (dataChildren allProp props), dav "getlastmodified" [], dav "getetag" []]
+      = .ok (allProp, if allProp then [] else props) := by
+  have := decDataChildren_enc allProp props
+  unfold decDataReq
+  simp only [List.find?_cons, el, Node.isElem, beq_self_eq_true, Bool.and_self]
+  simpa [el] using this
+
+/-- the backend receives the caller's query: general round trip, for every expressible query (any number of prop
+    filters, text matches and param filters, any strings) and every limit a Go `int` can hold -/
+theorem decodeQuery_queryNode (q : Query) (h : Expressible q) (hlim : q.limit < 9223372036854775808) :
+    decodeQuery (queryNode q) = .ok (some (denotes q)) := by
+  obtain ⟨allProp, props, ft, pfs, limit⟩ := q
+  obtain ⟨hft, hpf⟩ := h
+  simp only at hft hpf hlim
+  unfold queryNode decodeQuery
+  simp only [el, beq_self_eq_true, Bool.and_self, Bool.not_true, Bool.false_eq_true, if_false, bind, Except.bind]
+  generalize hcs : ([encPropReq allProp props, Node.elem ⟨nsCard, "filter"⟩ (atOpt "test" ft) (pfs.map propNode)] ++ encLimit limit) = cs
+  have hlimitNodes : ∀ n ∈ encLimit limit, n.isElem nsDav "prop" = false ∧ n.localIs "filter" = false := by
+    intro n hn; unfold encLimit at hn; split at hn
+    · simp at hn; subst hn; simp [el, Node.isElem, Node.localIs, nsCard, nsDav]
+    · cases hn
+  have hprop : cs.filter (·.isElem nsDav "prop") = [encPropReq allProp props] := by
+    rw [← hcs, List.filter_append]
+    have : (encLimit limit).filter (·.isElem nsDav "prop") = [] := by
+      rw [List.filter_eq_nil_iff]; intro n hn; simp [(hlimitNodes n hn).1]
+    rw [this]; simp [List.filter_cons, encPropReq, dav, Node.isElem, nsCard, nsDav]
+  have hfil : cs.filter (·.localIs "filter") = [Node.elem ⟨nsCard, "filter"⟩ (atOpt "test" ft) (pfs.map propNode)] := by
+    rw [← hcs, List.filter_append]
+    have : (encLimit limit).filter (·.localIs "filter") = [] := by
+      rw [List.filter_eq_nil_iff]; intro n hn; simp [(hlimitNodes n hn).2]
+    rw [this]; simp [List.filter_cons, encPropReq, dav, Node.localIs]
+  have hlimit : decLimit cs = decLimit (encLimit limit) := by
+    rw [decLimit_pick cs, decLimit_pick (encLimit limit)]
+    congr 1
+    rw [← hcs, pick_append]
+    simp [pick, List.filter_cons, encPropReq, dav, Node.localIs]
+  rw [hprop, hfil]
+  simp only [List.getLast?_singleton, encPropReq, dav]
+  have hdr := decDataReq_enc allProp props
+  simp only [dataChildren, dav] at hdr
+  rw [hdr]
+  simp only [ne_eq, not_true_eq_false, if_false]
+  rw [decEnum_filterTest ft hft]
+  simp only []
+  have hpick : (pfs.map propNode).filter (·.localIs "prop-filter") = pfs.map propNode := by
+    have := pick_propNodes "prop-filter" pfs
+    simpa [pick] using this
+  rw [hpick, mapM_map_ok propNode decPropFilter pfs (fun x hx => decPropFilter_node x (hpf x hx))]
+  simp only [hlimit]
+  by_cases hpos : limit > 0
+  · have hk : ∃ k : Nat, limit = (k : Int) ∧ k ≠ 0 ∧ k < 9223372036854775808 := ⟨limit.toNat, by omega, by omega, by omega⟩
+    obtain ⟨k, rfl, hk0, hkm⟩ := hk
+    rw [C09_limit k hk0 hkm]
+    cases k with
+    | zero => exact absurd rfl hk0
+    | succ k => simp [denotes, pure, Except.pure]
+  · have : encLimit limit = [] := by unfold encLimit; simp [hpos]
+    rw [this]
+    simp [decLimit, denotes, hpos, pure, Except.pure]
+
 end GoWebdav.Lemmas.CarddavWire
